@@ -226,6 +226,7 @@ func (m *UDPMuxDefault) RemoveConnByUfrag(ufrag string) {
 	removedConns := make([]*udpMuxedConn, 0, 2)
 
 	// Keep lock section small to avoid deadlock with conn lock.
+	verifhook.Yield("mr.r_unlist")
 	m.mu.Lock()
 	if c, ok := m.connsIPv4[ufrag]; ok {
 		delete(m.connsIPv4, ufrag)
@@ -242,6 +243,7 @@ func (m *UDPMuxDefault) RemoveConnByUfrag(ufrag string) {
 		return
 	}
 
+	verifhook.Yield("mr.r_unmap")
 	m.addressMapMu.Lock()
 	defer m.addressMapMu.Unlock()
 
@@ -497,6 +499,7 @@ func (m *UDPMuxDefault) clearWriteAbortState() {
 }
 
 func (m *UDPMuxDefault) registerConnForAddress(conn *udpMuxedConn, addr netip.AddrPort) {
+	verifhook.Yield("mr.register")
 	if m.IsClosed() {
 		return
 	}
@@ -564,6 +567,7 @@ func (m *UDPMuxDefault) connWorker() { //nolint:cyclop
 
 	buf := make([]byte, receiveMTU)
 	for {
+		verifhook.Yield("mr.d_read")
 		n, srcAddrPort, srcUDPAddr, err := m.readFromUDPConn(buf)
 		if m.IsClosed() {
 			return
@@ -585,6 +589,7 @@ func (m *UDPMuxDefault) connWorker() { //nolint:cyclop
 		srcAddr := canonicalAddrPort(srcAddrPort)
 
 		// If we have already seen this address dispatch to the appropriate destination
+		verifhook.Yield("mr.d_lookup")
 		m.addressMapMu.Lock()
 		destinationConn := m.addressMap[srcAddr]
 		m.addressMapMu.Unlock()
@@ -611,6 +616,7 @@ func (m *UDPMuxDefault) connWorker() { //nolint:cyclop
 			ufrag := strings.Split(string(attr), ":")[0]
 			isIPv6 := srcAddr.Addr().Is6()
 
+			verifhook.Yield("mr.d_ufrag")
 			m.mu.Lock()
 			destinationConn, _ = m.getConn(ufrag, isIPv6)
 			m.mu.Unlock()
@@ -622,6 +628,7 @@ func (m *UDPMuxDefault) connWorker() { //nolint:cyclop
 			continue
 		}
 
+		verifhook.Yield("mr.d_enq")
 		if err = destinationConn.writePacket(buf[:n], srcAddrPort, srcUDPAddr); err != nil {
 			m.params.Logger.Errorf("Failed to write packet: %v", err)
 		}
